@@ -2,6 +2,7 @@ use std::ops::Neg;
 
 use crate::{Hash, OpCodes, PublicKey, Script, ScriptBit, SigHash, SighashSignature, ToHex};
 use num_bigint::{BigInt, Sign};
+use num_traits::ToPrimitive;
 
 use super::{
     errors::InterpreterError,
@@ -425,16 +426,16 @@ impl Interpreter {
                 state.stack.push_bigint(a % b)?;
             }
             OpCodes::OP_LSHIFT => {
-                let bits = state.stack.pop_number()?;
+                let bits = state.stack.pop_bigint()?;
                 let data = state.stack.pop_bytes()?;
 
-                state.stack.push(shift_bytes(&data, bits, true)?);
+                state.stack.push(shift_bytes(&data, &bits, true)?);
             }
             OpCodes::OP_RSHIFT => {
-                let bits = state.stack.pop_number()?;
+                let bits = state.stack.pop_bigint()?;
                 let data = state.stack.pop_bytes()?;
 
-                state.stack.push(shift_bytes(&data, bits, false)?);
+                state.stack.push(shift_bytes(&data, &bits, false)?);
             }
             OpCodes::OP_BOOLAND => {
                 let a = state.stack.pop_bool()?;
@@ -660,15 +661,20 @@ impl Interpreter {
 }
 
 /// OP_LSHIFT / OP_RSHIFT: logical shift of a byte string seen as a big endian bit string, the length does not change.
-fn shift_bytes(data: &[u8], bits: i32, left: bool) -> Result<Vec<u8>, InterpreterError> {
-    if bits < 0 {
+fn shift_bytes(data: &[u8], bits: &BigInt, left: bool) -> Result<Vec<u8>, InterpreterError> {
+    if bits.sign() == Sign::Minus {
         return Err(InterpreterError::InvalidStackOperation("Shift count must not be negative"));
     }
 
     let len = data.len();
-    let byte_shift = bits as usize / 8;
-    let bit_shift = bits as u32 % 8;
     let mut shifted = vec![0u8; len];
+    // The count is a script number of any size, shifting by the whole length or more leaves only zero bits
+    let bits = match bits.to_usize() {
+        Some(bits) if bits < len * 8 => bits,
+        _ => return Ok(shifted),
+    };
+    let byte_shift = bits / 8;
+    let bit_shift = bits as u32 % 8;
     for i in 0..len {
         // Every output byte is assembled from two neighbouring source bytes
         let (first, second) = match left {
